@@ -2223,3 +2223,12 @@ for _n in list(STD_EXC_BASE) + ['_ZTISt9exception']:
     for _k in ('D0', 'D1', 'D2'):
         EXTERNALS.setdefault('_ZN%s%sEv' % (_c, _k), x_noop0)
     EXTERNALS.setdefault('_ZNK%s4whatEv' % _c, _exc_what_generic)
+
+
+@ext_prefix('llvm.load.relative.')
+def x_load_relative(eng, st, a, name):
+    off = _len(eng, st, a[1], 'relative table offset')
+    v = cells_int(eng.mem_read(st, a[0] + sext_const(off, 64), 4))
+    if type(v) is not int:
+        v = eng.concretize(st, v, 'relative table entry')
+    return (a[0] + sext_const(v, 32)) & M64
